@@ -16,6 +16,9 @@ pub mod testing;
 
 /// The main error and result types
 pub mod errors;
+/// Verification hook: seeded iteration order of output-reaching hash collections (only with `--cfg mos_verif`)
+#[cfg(mos_verif)]
+pub mod verif_hashperm;
 /// Source code formatting
 pub mod formatting;
 
